@@ -158,6 +158,7 @@ func cmdCheck(args []string) int {
 	var fuc []string
 	var engineErrs []string
 	var trusted []string
+	var reliedOnly []string
 	for len(work) > 0 {
 		k := work[0]
 		work = work[1:]
@@ -169,6 +170,13 @@ func cmdCheck(args []string) int {
 		}
 		if ct.Trusted {
 			trusted = append(trusted, k)
+			continue
+		}
+		if *only == "" && !ct.ownsProp(*prop) && !ct.hasStar() {
+			// reached only because its contract was applied at a call site and none of its clauses is
+			// proved under this property: every clause (and its frame) is proved by the checks of the
+			// properties it is tagged with (recorded; the thorough tier runs those checks)
+			reliedOnly = append(reliedOnly, k)
 			continue
 		}
 		x := &Exec{Ctx: ctx, Prop: *prop, TopFn: fn, TopKey: k, Contract: ct, instCount: map[string]int{}, sites: map[*ssa.Function]map[ssa.Instruction]string{}, retCover: map[string]bool{}, debug: *debug}
@@ -480,6 +488,7 @@ func cmdCheck(args []string) int {
 			"obligation_names":         order,
 			"known_findings_open":      knownHit,
 			"covers_undecided":         coverUndecided,
+			"contracts_used_not_proved_here": reliedOnly,
 			"bounded_standin":          boundedEv,
 		},
 		"assumptions": assumptions,
